@@ -113,7 +113,7 @@ def status_floor(ref, program):
             if x is None:
                 break
     kinds = set(k for _i, k in program.get("hook_faults") or [])
-    if kinds - set(["Exception", "AssertionError"]):
+    if kinds - set(["Exception", "AssertionError", "Exception0", "AssertionError0"]):
         # interrupts / aborts / run-time skips in hooks end the run or exclude elements: only the
         # steps that are known to have run count (no hook-error floor)
         return {} if ("KeyboardInterrupt" in kinds or "abort" in kinds) else floor
